@@ -327,6 +327,11 @@ func faultCases(w *world, thorough bool) ([]caseSpec, error) {
 			}
 		}
 	}
+	// targets messages naming the recipient itself, a duplicate, an unresolvable host
+	for _, v := range []string{`["127.0.0.1:7003","127.0.0.1:7004","127.0.0.1:7001"]`, `["127.0.0.1:7001"]`,
+		`["127.0.0.1:7003","127.0.0.1:7003"]`, `["no-such-host.invalid:7003","127.0.0.1:7004"]`, `[]`} {
+		res = append(res, caseSpec{Kind: "handler", Schema: "targets", Mode: "whole", Pos: "$", Fault: "own-target", Variant: v})
+	}
 	// delivery faults of the sync request: the (valid, garbage, failing) answer arrives AFTER the node's timeout
 	for _, schema := range []string{"update-ext", "update-full"} {
 		for _, v := range []string{"late", "late-garbage", "late-error"} {
